@@ -607,3 +607,17 @@ impl<'c, 's> WriterInner<'c, 's> {
 			})
 	}
 }
+
+#[cfg(ten0_serde_avro_fast_verif)]
+impl<'c, 's, W: Write> Writer<'c, 's, W> {
+	/// Verification hook (H3): (objects in the open block, an encoded block awaits flushing,
+	/// length of the open block buffer)
+	#[doc(hidden)]
+	pub fn verif_state(&self) -> (u64, bool, usize) {
+		(
+			self.inner.n_elements_in_block,
+			self.inner.block_header_size.is_some(),
+			self.inner.serializer_state.writer().len(),
+		)
+	}
+}
